@@ -280,6 +280,7 @@ var bseqGroup = axiomGroup{
 (assert (forall ((v Int)) (! (=> (and (<= 0 v) (< v 65536)) (and (= (bat (be16 v) 0) (div v 256)) (= (bat (be16 v) 1) (mod v 256)))) :pattern ((be16 v)))))
 (assert (forall ((s BSeq)) (! (and (<= 0 (unbe s)) (=> (= (blen s) 1) (and (< (unbe s) 256) (= (unbe s) (bat s 0)))) (=> (= (blen s) 2) (and (< (unbe s) 65536) (= (unbe s) (+ (* 256 (bat s 0)) (bat s 1))))) (=> (= (blen s) 4) (< (unbe s) 4294967296)) (=> (= (blen s) 8) (< (unbe s) 18446744073709551616))) :pattern ((unbe s)))))
 (assert (forall ((s BSeq)) (! (=> (= (blen s) 2) (= (be16 (unbe s)) s)) :pattern ((be16 (unbe s))))))
+(assert (forall ((s BSeq)) (! (=> (= (blen s) 4) (= (be32 (unbe s)) s)) :pattern ((be32 (unbe s))))))
 (assert (forall ((v Int)) (! (and (= (blen (bbyte v)) 1) (=> (and (<= 0 v) (< v 256)) (= (bat (bbyte v) 0) v))) :pattern ((bbyte v)))))
 `,
 	symbols: []string{"blen", "bat", "bempty", "bcat", "bsub", "seqOf", "splice", "bzeros", "be16", "be32", "be64", "unbe", "bbyte"},
